@@ -6,6 +6,7 @@ import (
 	"go/token"
 	"go/types"
 	"sort"
+	"strings"
 
 	"golang.org/x/tools/go/ssa"
 )
@@ -53,13 +54,19 @@ func constOf(v ssa.Value, s *sccp) (lat, bool) {
 	return l, ok
 }
 
-func runSCCP(f *ssa.Function) *sccp {
+func runSCCP(f *ssa.Function) *sccp { return runSCCPSeeded(f, nil) }
+
+// runSCCPSeeded: parameters listed in seeds start at the given lattice value (constant at every call site considered).
+func runSCCPSeeded(f *ssa.Function, seeds map[*ssa.Parameter]lat) *sccp {
 	s := &sccp{f: f, vals: map[ssa.Value]lat{}, reach: map[*ssa.BasicBlock]bool{}, edge: map[[2]int]bool{}, constIf: map[*ssa.If]bool{}}
 	if len(f.Blocks) == 0 {
 		return s
 	}
 	for _, p := range f.Params {
 		s.vals[p] = lat{varying: true}
+		if l, ok := seeds[p]; ok {
+			s.vals[p] = l
+		}
 	}
 	for _, fv := range f.FreeVars {
 		s.vals[fv] = lat{varying: true}
@@ -304,32 +311,92 @@ type deadCall struct {
 }
 
 func mechanismCalls(c *Ctx, f *ssa.Function, mech map[string]bool) []deadCall {
-	s := runSCCP(f)
-	var out []deadCall
+	return mechanismCallsIn(c, f, mech, nil, false, 0)
+}
+
+// mechanismCallsDeep also follows calls to helpers of the package that (transitively) contain mechanism calls: the
+// helper is analysed with the constants its call site passes, so a cap constructor moved into `doEndCap(path, i,
+// delta)` is still seen, in call-site order, dead or alive as before.
+func mechanismCallsDeep(c *Ctx, f *ssa.Function, mech map[string]bool) []deadCall {
+	return mechanismCallsIn(c, f, mech, nil, true, 0)
+}
+
+func containsMech(c *Ctx, f *ssa.Function, mech map[string]bool, depth int) bool {
+	if depth > 2 || f == nil {
+		return false
+	}
+	for _, ci := range calls(f) {
+		if mech[calleeName(c, ci)] {
+			return true
+		}
+		if sc := ci.Common().StaticCallee(); sc != nil && sc != f && c.inRepo(sc) && sc.Blocks != nil && containsMech(c, sc, mech, depth+1) {
+			return true
+		}
+	}
+	return false
+}
+
+func mechanismCallsIn(c *Ctx, f *ssa.Function, mech map[string]bool, seeds map[*ssa.Parameter]lat, deep bool, depth int) []deadCall {
+	s := runSCCPSeeded(f, seeds)
 	type site struct {
-		ci ssa.CallInstruction
-		b  *ssa.BasicBlock
+		ci     ssa.CallInstruction
+		b      *ssa.BasicBlock
+		helper *ssa.Function
 	}
 	var sites []site
 	for _, b := range f.Blocks {
 		for _, in := range b.Instrs {
-			if ci, ok := in.(ssa.CallInstruction); ok {
-				if mech[calleeName(c, ci)] {
-					sites = append(sites, site{ci, b})
+			ci, ok := in.(ssa.CallInstruction)
+			if !ok {
+				continue
+			}
+			if mech[calleeName(c, ci)] {
+				sites = append(sites, site{ci, b, nil})
+			} else if deep && depth < 2 {
+				// only helpers that exist for f alone (code extracted from f): a function with other callers is a
+				// mechanism user in its own right
+				if sc := ci.Common().StaticCallee(); sc != nil && sc != f && c.inRepo(sc) && sc.Blocks != nil && onlyCalledFrom(c, sc, f) && containsMech(c, sc, mech, 0) {
+					sites = append(sites, site{ci, b, sc})
 				}
 			}
 		}
 	}
 	sort.Slice(sites, func(i, j int) bool { return sites[i].ci.Pos() < sites[j].ci.Pos() })
-	cnt := map[string]int{}
+	var out []deadCall
 	for _, st := range sites {
-		n := calleeName(c, st.ci)
-		cnt[n]++
-		dc := deadCall{callee: n, ordinal: cnt[n], pos: st.ci.Pos(), dead: !s.reach[st.b]}
-		if dc.dead {
-			dc.because = killer(c, s, st.b)
+		dead := !s.reach[st.b]
+		because := ""
+		if dead {
+			because = killer(c, s, st.b)
 		}
-		out = append(out, dc)
+		if st.helper == nil {
+			out = append(out, deadCall{callee: calleeName(c, st.ci), pos: st.ci.Pos(), dead: dead, because: because})
+			continue
+		}
+		hs := map[*ssa.Parameter]lat{}
+		for i, a := range st.ci.Common().Args {
+			if i < len(st.helper.Params) {
+				if l, ok := constOf(a, s); ok && !l.varying {
+					hs[st.helper.Params[i]] = l
+				}
+			}
+		}
+		for _, dc := range mechanismCallsIn(c, st.helper, mech, hs, deep, depth+1) {
+			if dead {
+				dc.dead, dc.because = true, because
+			}
+			if dc.dead && !strings.Contains(dc.because, "through") {
+				dc.because += fmt.Sprintf(" (through %s called at %s with the constants of that call)", c.fname(st.helper), c.pos(st.ci.Pos()))
+			}
+			out = append(out, dc)
+		}
+	}
+	if depth == 0 {
+		cnt := map[string]int{}
+		for i := range out {
+			cnt[out[i].callee]++
+			out[i].ordinal = cnt[out[i].callee]
+		}
 	}
 	return out
 }
@@ -370,7 +437,11 @@ func ruleDead(rule string, fnNames []string, mech []string, minInstances int, wh
 		}
 		for _, f := range funcs {
 			fn := c.fname(f)
-			for _, dc := range mechanismCalls(c, f, m) {
+			list := mechanismCalls(c, f, m)
+			if fnNames != nil {
+				list = mechanismCallsDeep(c, f, m)
+			}
+			for _, dc := range list {
 				n++
 				key := fmt.Sprintf("%s:%s:%s@%d", rule, fn, dc.callee, dc.ordinal)
 				c.check(!dc.dead, rule, key, dc.pos, fn,
@@ -380,4 +451,23 @@ func ruleDead(rule string, fnNames []string, mech []string, minInstances int, wh
 		}
 		c.floor(rule, n, minInstances)
 	}
+}
+
+// onlyCalledFrom: every static call of h in the package sits in f.
+func onlyCalledFrom(c *Ctx, h, f *ssa.Function) bool {
+	n := 0
+	for _, g := range c.srcFuncs() {
+		if g.Synthetic != "" {
+			continue // promoted-method wrappers and thunks are not callers of their own
+		}
+		for _, ci := range calls(g) {
+			if ci.Common().StaticCallee() == h {
+				if g != f {
+					return false
+				}
+				n++
+			}
+		}
+	}
+	return n > 0
 }
